@@ -171,6 +171,7 @@ AdjSum(Ls, vs, n) ==
 (*   I.tau, I.sig (sequence), I.th   step sizes / relaxation                *)
 (*   I.b    right-hand sides (sequence of vectors)                          *)
 (*   I.pw   componentwise power of the forward maps (1 = linear)            *)
+(*   I.ls   infimal-convolution terms of forward-backward (<<>> = absent)   *)
 (* ======================================================================= *)
 L1of(I) == I.Ls[1]
 G1of(I) == I.gs[1]
@@ -232,7 +233,13 @@ DRStep(I, s) ==
        v |-> [i \in 1..m |-> RAdd(s.v[i], RScal(I.th, RSub(z2[i], p2[i])))],
        x |-> p1]
 
-\* --- forward-backward primal-dual (Bot-Csetnek 2015 / Condat-Vu, l_i absent):  state [x, v]
+\* --- infimal-convolution terms l_i (forward_backward_pd's option `l`): strongly convex squared norms
+\*     l(z) = c |z - t|^2 ,  l*(v) = |v|^2/(4c) + <t, v> ,  grad l*(v) = v/(2c) + t
+GradConj(l, v) == [i \in 1..Len(v) |-> SAdd(SDiv(v[i], SMul(Two, l.c)), Tr(l, Len(v))[i])]
+\* the argument of g_i in the dual inclusion:  L_i x - grad l_i*(v_i)   (no l: L_i x)
+LArg(I, i, z, v) == IF I.ls = <<>> THEN z ELSE RSub(z, GradConj(I.ls[i], v))
+
+\* --- forward-backward primal-dual (Bot-Csetnek 2015 / Condat-Vu; with l_i: v+ uses L_i y - grad l_i*(v_i)):  state [x, v]
 FBStep(I, s) ==
   LET m  == Len(I.Ls)
       x1 == Prox(I.f, I.tau,
@@ -240,7 +247,7 @@ FBStep(I, s) ==
       y  == RSub(RScal(Two, x1), s.x)
   IN  [x |-> x1,
        v |-> [i \in 1..m |-> ProxConj(I.gs[i], I.sig[i],
-                               RAdd(s.v[i], RScal(I.sig[i], MatVec(I.Ls[i], y))))]]
+                               RAdd(s.v[i], RScal(I.sig[i], LArg(I, i, MatVec(I.Ls[i], y), s.v[i]))))]]
 
 \* --- proximal gradient (ISTA with relaxation th) for  min f(x) + g(L x), g = gs[1] smooth:  state [x]
 PGGrad(I, x) == MatTVec(L1of(I), Grad(G1of(I), MatVec(L1of(I), x)))
@@ -327,10 +334,10 @@ PowerEst4(I, v) == SDiv(RNorm2(MatTVec(L1of(I), MatVec(L1of(I), v))), RNorm2(v))
 
 (* ------------------------- optimality ----------------------------------- *)
 \* first-order conditions of  min f(x) + h(x) + sum_i g_i(L_i x)  for a primal-dual pair:
-\*     -grad h(x) - sum L_i^T y_i \in df(x) ,  y_i \in dg_i(L_i x)
+\*     -grad h(x) - sum L_i^T y_i \in df(x) ,  y_i \in dg_i(L_i x - grad l_i*(y_i))   (l_i absent: dg_i(L_i x))
 KKT(I, x, ys) ==
   /\ InSubdiff(I.f, x, RNeg(RAdd(Grad(I.h, x), AdjSum(I.Ls, ys, Len(x)))))
-  /\ \A i \in 1..Len(I.Ls) : InSubdiff(I.gs[i], MatVec(I.Ls[i], x), ys[i])
+  /\ \A i \in 1..Len(I.Ls) : InSubdiff(I.gs[i], LArg(I, i, MatVec(I.Ls[i], x), ys[i]), ys[i])
 
 \* all sequences over a sequence of sets
 RECURSIVE SeqProd(_)
@@ -344,11 +351,21 @@ VecsOver(lat, n) == SeqProd([i \in 1..n |-> lat])
 DualCands(g, z, lat) ==
   IF IsSmooth(g) THEN {Grad(g, z)}
   ELSE LET t == Tr(g, Len(z)) IN SeqProd([i \in 1..Len(z) |-> {v \in lat : Sub1(g, z[i], t[i], v)}])
+\* with an infimal-convolution term l (squared norm): v \in dg(z - v/(2 c_l) - t_l), coordinate by coordinate;
+\* a smooth g gives the single solution of the linear equation
+DualCandsL(g, l, z, lat) ==
+  LET n == Len(z)  tg == Tr(g, n)  tl == Tr(l, n) IN
+  IF g.k = "L2sq"
+    THEN {[i \in 1..n |-> SDiv(SMul(SMul(Two, g.c), SSub(SSub(z[i], tl[i]), tg[i])),
+                               SAdd(QOne, SDiv(g.c, l.c)))]}
+  ELSE IF g.k = "Zero" THEN {RZero(n)}
+  ELSE SeqProd([i \in 1..n |-> {v \in lat : Sub1(g, SSub(z[i], SAdd(SDiv(v, SMul(Two, l.c)), tl[i])), tg[i], v)}])
+DualCandsI(I, i, z, lat) == IF I.ls = <<>> THEN DualCands(I.gs[i], z, lat) ELSE DualCandsL(I.gs[i], I.ls[i], z, lat)
 \* KKT pairs <<x, ys>> with x on latX^n and every dual coordinate on latY
 KKTPoints(I, latX, latY) ==
   LET n == NCols(I.Ls[1]) IN
   UNION { { <<x, ys>> : ys \in { ys \in SeqProd([i \in 1..Len(I.Ls) |->
-                                      DualCands(I.gs[i], MatVec(I.Ls[i], x), latY)]) :
+                                      DualCandsI(I, i, MatVec(I.Ls[i], x), latY)]) :
                                  KKT(I, x, ys) } } : x \in VecsOver(latX, n) }
 
 (* ------------------------- promised decrease ---------------------------- *)
